@@ -9,6 +9,8 @@
     eq      <coords> <coords>                       → ok <0|1>
     defreg  <coords> <trapIds> <qids|->             → ok ids=<qids> pos=<coords> traps=<ids>
     lookup  <coords> <coords>                       → ok <ids>
+    dreg    <coords> <dim> <qids> <positions as rationals> <trapIds>
+                                                    → ok ids=… pos=… traps=…
     mappable <coords> <declared> <mapping>          → ok ids=… pos=… traps=…
     wmap    <coords> <weights> <positions>
                                                     → ok sc=<coords> sw=<rats> qw=<rats>
@@ -85,6 +87,16 @@ def handle (toks : List String) : Option String :=
     let ids ← parseNats? ids
     let qids ← parseOptIds? qids
     pure <| withRes (mkLayout cs) fun L => withRes (defineRegister L ids qids) showReg
+  | ["dreg", cs, dim, qids, ps, ids] => do
+    let cs ← parseCoords? cs
+    let dim ← Wire.parseNat? dim
+    let qids ← parseIds? qids
+    let ps ← Wire.parseListList? Wire.parseRat? ps
+    let ids ← parseNats? ids
+    if qids.length ≠ ps.length then none
+    else
+      pure <| withRes (mkLayout cs) fun L =>
+        withRes (mkRegisterDirect L dim (qids.zip ps) ids) showReg
   | ["lookup", cs, qs] => do
     let cs ← parseCoords? cs
     let qs ← parseCoords? qs
